@@ -386,6 +386,9 @@ pub fn fault_check<const N: usize>(prop: &str, o: &Opts, rep: &mut Report) {
     // constructors that run user code / destructors
     if o.shard.0 == 0 {
         ctor_faults::<N>(prop, rep);
+        if prop != "C10" {
+            crate::zst::zst_twin::<N>(prop, rep);
+        }
     }
 
     /// Is the state right after the deviation one of the states whose whole future the fault-free
